@@ -395,6 +395,72 @@ fn gen_net(r: &mut Rng) -> String {
     out
 }
 
+// ---------------------------------------------------------------- L
+/// Loops whose trip count is (input + c) / step for an odd step: at 64 bit the
+/// closed forms multiply by modular inverses, i.e. immediates beyond 32 bits.
+fn gen_large(r: &mut Rng) -> String {
+    let mut out = String::new();
+    let n = 3 + r.below(10) as i32;
+    let t = n;
+    let cnt = n + 3;
+    let mut cur = 0;
+    for i in 0..n {
+        go(&mut out, &mut cur, i);
+        if !r.chance(4) {
+            out.push(',');
+        } else {
+            rep(&mut out, '+', 1 + r.below(3));
+        }
+    }
+    let loops = 1 + r.below(2);
+    for _ in 0..loops {
+        go(&mut out, &mut cur, cnt);
+        out.push(',');
+        rep(&mut out, '+', r.below(4));
+        let step = *r.pick(&[3u64, 5, 7, 3]);
+        out.push('[');
+        rep(&mut out, '-', step);
+        for _ in 0..1 + r.below(4) {
+            let i = r.below(n as u64) as i32;
+            let j = (i + 1 + r.below(n as u64 - 1) as i32) % n;
+            match r.below(4) {
+                0 => {
+                    go(&mut out, &mut cur, i);
+                    let c = if r.chance(3) { '-' } else { '+' };
+                    rep(&mut out, c, 1 + r.below(3));
+                }
+                1 | 2 => add_preserving(&mut out, &mut cur, i, j, t, r.chance(4)),
+                _ => {
+                    go(&mut out, &mut cur, i);
+                    out.push('.');
+                }
+            }
+        }
+        go(&mut out, &mut cur, cnt);
+        out.push(']');
+        for _ in 0..r.below(4) {
+            let i = r.below(n as u64) as i32;
+            let j = (i + 1 + r.below(n as u64 - 1) as i32) % n;
+            if r.chance(3) {
+                add_preserving(&mut out, &mut cur, t + 1, i, t, false);
+                go(&mut out, &mut cur, t + 1);
+                out.push_str("[[-]");
+                go(&mut out, &mut cur, j);
+                out.push('+');
+                go(&mut out, &mut cur, t + 1);
+                out.push(']');
+            } else {
+                add_preserving(&mut out, &mut cur, i, j, t, false);
+            }
+        }
+    }
+    for i in 0..n {
+        go(&mut out, &mut cur, i);
+        out.push('.');
+    }
+    out
+}
+
 // ---------------------------------------------------------------- T
 fn gen_roam(r: &mut Rng) -> String {
     let mut out = String::new();
@@ -635,6 +701,7 @@ pub fn main_gen(args: &[String]) {
             "S" => gen_s(&mut r),
             "N" => gen_net(&mut r),
             "T" => gen_roam(&mut r),
+            "L" => gen_large(&mut r),
             "D" => gen_div(&mut r),
             "M" => {
                 let s = r.pick(&seeds).clone();
